@@ -54,11 +54,16 @@ FAMILIES = {
     'c44k': ('c11_mkstream', dict(rate=44100, ch=2, n=30000, q=0.1, sig='clicks', period=9000), dict(sig='clicks', period=6100)),  # 256/2048, S/L alternate
     'd8k_imp': ('mkzoo', dict(rate=8000, ch=2, n=3000, q=0.3, sig='impulse'), dict(sig='mix')),                  # digitally silent packets (all floors unused) between coded ones
     'e8k_alt': ('c11_mkstream', dict(rate=8000, ch=2, n=6000, q=0.3, sig='alt', period=1200), dict(sig='mix')),   # channels alternately silent inside the coupled pair
+    # tone - exact digital silence (>= 40 packets) - tone, ODD channel counts: what a silent block decodes to must not depend on the decoder's past
+    'g8k_tsil1': ('c11_mkstream', dict(rate=8000, ch=1, n=16000, q=0.3, sig='tsil', period=2500), dict(sig='mix')),
+    'g8k_tsil3': ('c11_mkstream', dict(rate=8000, ch=3, n=16000, q=0.3, sig='tsil', period=2500), dict(sig='mix')),
     # written bit by bit by the specification-level synthesiser (streams the encoder never produces)
     'f0r0': ('synth', dict(serial=1101, bs0=128, bs1=512, npk=30, ch=2, floortype=0, restype=0, ppp=3), dict(fill=[5, 1])),   # floor 0 + residue 0, coupled; one floor shared by both modes (lazy bark map)
     'm3': ('synth', dict(serial=1103, bs0=64, bs1=256, npk=30, ch=1, modes3=True, ppp=4), dict(fill=[5, 1])),                  # three modes, mode number != block flag
     'r2': ('synth', dict(serial=1104, bs0=64, bs1=128, npk=30, ch=2, restype=2, ppp=4), dict(fill=[5, 1])),                   # residue 2
     # thorough only
+    'g44k_tsil1': ('c11_mkstream', dict(rate=44100, ch=1, n=70000, q=0.1, sig='tsil', period=9000), dict(sig='clicks', period=9000)),
+    'g44k_tsil3': ('c11_mkstream', dict(rate=44100, ch=3, n=70000, q=0.1, sig='tsil', period=9000), dict(sig='clicks', period=9000)),
     'a8k_long': ('mkzoo', dict(rate=8000, ch=1, n=12000, q=0.3, sig='mix'), dict(sig='noise')),
     'b16k_clicks': ('c11_mkstream', dict(rate=16000, ch=2, n=20000, q=0.3, sig='clicks', period=4000), dict(sig='mix')),
     'c44k_long': ('c11_mkstream', dict(rate=44100, ch=2, n=110000, q=0.2, sig='clicks', period=13000), dict(sig='clicks', period=8100)),
@@ -119,6 +124,25 @@ def hr_recipes(recs, wanted):
 
 def hr_tag(cases):
     return [(line, (sig[0], 'hr_' + sig[1], sig[2])) for line, sig in cases]
+
+
+def byte_facts(path, family):
+    """Facts about a stream taken from its BYTES only (own Ogg page reader, own bit reading) - never from what the library under test decodes:
+    packet lengths, block size letter per packet (ident header byte 28 + the packet's mode bits), the first channel's floor-1 'used' flag."""
+    path = path.split(':')[-1]
+    pk = [p[0] for p in vlib.packets_of(vlib.parse_pages(open(path, 'rb').read()))]
+    ident, aud = pk[0], pk[3:]
+    bs0, bs1 = 1 << (ident[28] & 15), 1 << (ident[28] >> 4)
+    modebits = 2 if family == 'm3' else 1           # encoder streams and the 2-mode synthesised ones: 1 bit; c11_m3: 3 modes
+    blocks, f0 = '', ''
+    for a in aud:
+        bits = int.from_bytes(a[:4].ljust(4, b'\0'), 'little')
+        mode = (bits >> 1) & ((1 << modebits) - 1)
+        long_ = mode >= 1                            # mode 0 is the short mode everywhere; modes 1 (and 2 in c11_m3) are long
+        blocks += 'L' if (long_ and bs1 != bs0) else 'S'
+        f0 += str((bits >> (1 + modebits + (2 if long_ else 0))) & 1) if len(a) else '-'
+    return {'lens': [len(a) for a in aud], 'blocks': blocks, 'bs0': bs0, 'bs1': bs1, 'first_floor_used': f0,
+            'transitions': sum(1 for i in range(1, len(blocks)) if blocks[i] != blocks[i - 1])}
 
 
 def stream_info(exe, paths):
@@ -269,7 +293,7 @@ def run(tier):
     vlib.build('plain', 'asan')
     exe = vlib.harness('plain', 'c11_damage')
     exe_asan = vlib.harness('asan', 'c11_damage')
-    fams = ['a8k', 'b16k', 'c44k', 'd8k_imp', 'e8k_alt', 'f0r0', 'm3', 'r2'] + (['a8k_long', 'b16k_clicks', 'c44k_long'] if tier == 'thorough' else [])
+    fams = ['a8k', 'b16k', 'c44k', 'd8k_imp', 'e8k_alt', 'f0r0', 'm3', 'r2', 'g8k_tsil1', 'g8k_tsil3'] + (['a8k_long', 'b16k_clicks', 'c44k_long', 'g44k_tsil1', 'g44k_tsil3'] if tier == 'thorough' else [])
     recs = recipes(fams)
     # half-rate pass: streams whose short block is > 64 samples and that really switch between short and long blocks
     hr_wanted = [('c44k', 'page')] + ([('c44k', 'every'), ('b16k_clicks', 'page'), ('b16k_clicks', 'every'), ('b16k', 'page'), ('c44k_long', 'page')] if tier == 'thorough' else [])
@@ -282,6 +306,16 @@ def run(tier):
     infos = stream_info(exe, paths)
     # the quick tier is sized to fit its budget and is never cut; thorough stops starting new phases 21 min after the build
     deadline = time.time() + float(os.environ.get('C11_THOROUGH_DEADLINE_S', 21 * 60)) if tier == 'thorough' else None   # env override only for a completeness run on a loaded machine
+    # --- facts the guards rely on come from the stream BYTES (or from the construction), never from what the library under test decodes;
+    #     where the library reports the same fact, a disagreement is a finding, not a broken check
+    for i, (r, pth) in enumerate(zip(recs, paths)):
+        bf = byte_facts(pth, r['family'])
+        chk.cov['evaluations'] += 1
+        if bf['blocks'] != infos[i]['blocks'] or bf['lens'] != infos[i]['lens'] or (bf['bs0'], bf['bs1']) != (infos[i]['bs0'], infos[i]['bs1']):
+            chk.violation(f"packet_blocksize_disagrees_with_packet_bytes:{r['family']}", f"stream {r['name']}: vorbis_packet_blocksize/vorbis_info_blocksize report {infos[i]['bs0']}/{infos[i]['bs1']} {infos[i]['blocks']}, the bytes say {bf['bs0']}/{bf['bs1']} {bf['blocks']}",
+                          {'case': 'bytefacts', 'recipes': [r]})
+        infos[i]['decoded_silent_mask'] = infos[i].pop('zeroch')      # informational only (depends on the decoder)
+        infos[i].update(bf)
     # --- preconditions on the zoo (vacuity guards)
     okzoo = True
     for f in fams:
@@ -301,8 +335,19 @@ def run(tier):
               'the 44.1 kHz stream really alternates short and long blocks in mid-stream (vorbis_packet_blocksize)')
     dimp = [i for i, r in enumerate(recs) if r['family'] == 'd8k_imp'][0]
     ealt = [i for i, r in enumerate(recs) if r['family'] == 'e8k_alt'][0]
-    chk.guard('3' in infos[dimp]['zeroch'][1:-1] and '0' in infos[dimp]['zeroch'], 'a stream has fully silent packets (every floor unused) between coded packets')
-    chk.guard('1' in infos[ealt]['zeroch'] and '2' in infos[ealt]['zeroch'] and '0' in infos[ealt]['zeroch'], 'a stereo stream has packets in which exactly one channel of the coupled pair has an unused floor (both ways)')
+    def silent(i):
+        # encoder-made packet of <= 2 bytes: type bit, mode/window bits and one 'floor unused' bit per channel, nothing else
+        return ''.join('s' if l <= 2 else 'c' for l in infos[i]['lens'])
+    chk.guard('csc' in silent(dimp).replace('ss', 's').replace('ss', 's') and recs[dimp]['kw']['sig'] == 'impulse',
+              'a stereo stream (impulses on digital silence) has fully silent packets (<= 2 bytes: every floor flagged unused) between coded packets')
+    fu = infos[ealt]['first_floor_used']
+    chk.guard(recs[ealt]['kw']['sig'] == 'alt' and any(u == '0' and l > 8 for u, l in zip(fu, infos[ealt]['lens'])) and '1' in fu,
+              'a stereo stream whose INPUT has the two channels alternately digitally silent (sig=alt): packets with the first floor flagged unused while the other channel is coded, and packets with it used (the opposite case follows from the input by construction)')
+    for gf, nch in (('g8k_tsil1', 1), ('g8k_tsil3', 3)):
+        gi = [i for i, r in enumerate(recs) if r['family'] == gf][0]
+        sl = silent(gi)
+        chk.guard(recs[gi]['kw']['ch'] == nch and recs[gi]['kw']['sig'] == 'tsil' and 's' * 40 in sl and sl.strip('s').startswith('c') and sl.rstrip('s').endswith('c') and sl.index('s') > 3,
+                  f'{nch}-channel stream of tone, >= 40 packets of exact digital silence (input is 0.0; packets <= 2 bytes), tone')
     acc = Acc()
     exhaustive = True
     phases_done = []
@@ -345,7 +390,7 @@ def run(tier):
     def fam_idx(f):
         return [i for i, r in enumerate(recs) if r['family'] == f and not r.get('hr') and not r.get('lap')]
 
-    quick_fams = ['a8k', 'b16k', 'c44k', 'd8k_imp', 'e8k_alt', 'f0r0', 'm3', 'r2']
+    quick_fams = ['a8k', 'b16k', 'c44k', 'd8k_imp', 'e8k_alt', 'f0r0', 'm3', 'r2', 'g8k_tsil1', 'g8k_tsil3']
     # --- page-level damage through vorbisfile (all streams incl. twins)
     pgc = []
     for si in range(len(recs)):
@@ -393,12 +438,12 @@ def run(tier):
     phase('single', singles)
     if tier == 'thorough':
         # pairs of disturbances: every k1<k2 x 7x7 simple operations
-        for f in ['a8k', 'd8k_imp', 'b16k', 'e8k_alt', 'f0r0', 'm3', 'r2', 'c44k']:
+        for f in ['a8k', 'd8k_imp', 'b16k', 'e8k_alt', 'f0r0', 'm3', 'r2', 'g8k_tsil1', 'c44k']:
             for st in (1, 0):
                 si = fam_idx(f)[st]
                 phase(f'pairs_simple_{f}_{recs[si]["style"]}', pair_cases_simple(si, infos[si]))
         # every bit flip / truncation of packet k2 after a structural disturbance 1..3 packets earlier
-        for f in ['a8k', 'd8k_imp', 'f0r0', 'm3', 'r2', 'c44k', 'e8k_alt', 'b16k']:
+        for f in ['a8k', 'd8k_imp', 'f0r0', 'm3', 'r2', 'g8k_tsil1', 'c44k', 'e8k_alt', 'b16k']:
             for st in (1, 0):
                 si = fam_idx(f)[st]
                 phase(f'pairs_flip_{f}_{recs[si]["style"]}', pair_cases_flip(si, infos[si]))
@@ -422,7 +467,7 @@ def run(tier):
         phase('halfrate_pairs_simple_c44k_page', hr_tag(pair_cases_simple(hq, infos[hq])))
         phase('halfrate_pairs_flip_c44k_page', hr_tag(pair_cases_flip(hq, infos[hq])))
         # longer streams: all single disturbances (split so that the deadline cuts at a phase boundary)
-        for f in ['a8k_long', 'b16k_clicks', 'c44k_long']:
+        for f in ['a8k_long', 'b16k_clicks', 'g44k_tsil1', 'g44k_tsil3', 'c44k_long']:
             e, p, t = fam_idx(f)
             for si in (p, e):
                 cs = single_cases(si, infos[si], [t], si)
@@ -462,7 +507,7 @@ def run(tier):
         'start_trim_exemption_applied': T['sx'],
         'vorbisfile_page_cases': {k: dict(v) for k, v in sorted(acc.kinds.items()) if k.startswith('pg')},
         'skipped_case_lines': T['skipped'],
-        'streams': [{'name': r['name'], 'packets': i['packets'], 'bytes': i['bytes'], 'blocks': i['blocks'], 'granule_packets': i['granule_packets'], 'ch': i['ch'], 'silent_channel_mask': i['zeroch'], 'halfrate': bool(r.get('hr')), 'lapout_read_path': bool(r.get('lap')), 'clean_samples': i['samples']} for r, i in zip(recs, infos)],
+        'streams': [{'name': r['name'], 'packets': i['packets'], 'bytes': i['bytes'], 'blocks': i['blocks'], 'granule_packets': i['granule_packets'], 'ch': i['ch'], 'decoded_silent_mask': i['decoded_silent_mask'], 'first_floor_used': i['first_floor_used'], 'halfrate': bool(r.get('hr')), 'lapout_read_path': bool(r.get('lap')), 'clean_samples': i['samples']} for r, i in zip(recs, infos)],
         'phases': phases_done,
         'transition_kinds_hit_by_observable_flips': sorted(trans_hit),
     })
@@ -487,6 +532,11 @@ def run(tier):
     chk.guard(all(any(acc.by[(f0, kind, k)]['n'] > 0 for k in range(infos[f0]['packets']) if infos[f0]['blocks'][k] == b) for b in 'SL' for kind in ('restart_own', 'restart_twin', 'dropgap', 'flip'))
               and infos[f0]['blocks'][0] == 'S' and acc.by[(f0, 'restart_own', infos[f0]['blocks'].index('L'))]['obs'] > 0,
               'floor-0 stream (one floor shared by both modes): restarts with an empty history at packets of the OTHER block size than the first audio packet (lazily built bark map) were executed')
+    for gf in ('g8k_tsil1', 'g8k_tsil3'):
+        for gi in fam_idx(gf)[:2]:
+            npk = infos[gi]['packets']
+            chk.guard(all(acc.by[(gi, kind, k)]['n'] > 0 for k in range(npk) for kind in ('dropgap', 'drop', 'restart_own', 'restart_twin')) and acc.by[(gi, 'restart_own', 5)]['n'] == npk + 1,
+                      f'{recs[gi]["name"]}: every drop point and every (history length, restart point) pair executed; all later packets compared bit-exactly (memcmp)')
     lq0 = lap_idx('c44k', 'page', 0)
     lpf = acc.kinds['lap_flip']
     chk.guard(infos[lq0]['lap'] == 1 and 'LS' in infos[lq0]['blocks'] and lpf['n'] > 0 and lpf['obs'] > 0
@@ -494,9 +544,9 @@ def run(tier):
               and any(acc.by[(lq0, 'lap_restart_own', k)]['n'] > 0 and acc.by[(lq0, 'lap_dropgap', k - 1)]['n'] > 0 for k in range(2, infos[lq0]['packets']) if infos[lq0]['blocks'][k:k + 2] == 'LS'),
               'lapout read path ran on streams with long->short transitions: every kind incl. restart at the long packet before a short one and loss of the packet before that')
     hrf = acc.kinds['hr_flip']
-    chk.guard(infos[hq]['halfrate'] == 1 and infos[hq]['samples'] * 2 == infos[fam_idx('c44k')[1]]['samples'] and hrf['n'] > 0 and hrf['obs'] > 0 and hrf['bsz'] > 0
+    chk.guard(infos[hq]['halfrate'] == 1 and hrf['n'] > 0 and hrf['obs'] > 0 and hrf['bsz'] > 0
               and all(acc.kinds['hr_' + k]['n'] > 0 and acc.kinds['hr_' + k]['skipped'] == 0 for k in ('dropgap', 'drop', 'dup', 'dupr', 'zero', 'restart_own', 'restart_twin', 'trunc', 'repl')),
-              'half-rate pass ran on a stream that switches short/long: clean output is half as long, all kinds incl. every bit flip executed, some flips observable and some changing the block size')
+              'half-rate pass ran on a stream that switches short/long: all kinds incl. every bit flip executed, some flips observable and some changing the block size')
     chk.guard(T['skipped'] == 0 or tier == 'thorough', 'no case line skipped')
     chk.guard(all(acc.kinds[k + m]['obs'] > 0 for k in ('pgdrop', 'pgcrc', 'pgdup') for m in ('_seekable', '_streaming')), 'page-level damage through vorbisfile (seekable and streaming) changed the output and was judged')
     chk.guard(T['ex'] > 0 and T['ex'] * 20 < T['n'], 'final-count exemption is exercised but narrow (<5% of damaged histories)')
@@ -509,6 +559,12 @@ def replay(path):
     vlib.build(flav, 'plain')
     exe = vlib.harness(flav, 'c11_damage')
     paths = make_streams(r['recipes'])
+    if r['case'] == 'bytefacts':
+        inf = stream_info(exe, paths)
+        bf = byte_facts(paths[0], r['recipes'][0]['family'])
+        same = bf['blocks'] == inf[0]['blocks'] and bf['lens'] == inf[0]['lens'] and (bf['bs0'], bf['bs1']) == (inf[0]['bs0'], inf[0]['bs1'])
+        print('library block sizes agree with the packet bytes:', same)
+        return 0 if same else 1
     if r['case'] == 'lapinfo':
         inf = stream_info(exe, paths)
         print('clean lapout output equals pcmout output:', inf[0]['lap_equals_pcmout'] == 1)
